@@ -209,6 +209,45 @@ fn c18_tb_v5_packet_shaped_request() {
     kani::cover!(header.mode == NtpMode::Request, "reachable");
 }
 
+/// (> 10 min, thorough tier) An NTPv5 request of the fixed shape [draft id | second draft id with other
+/// text | unique identifier(4, symbolic)] gets a time answer whose fields are exactly
+/// [unique identifier | the server's own draft id] -- a draft identification of the request is
+/// never reflected (KISS answers: thorough-tier harnesses).
+#[kani::proof]
+#[kani::unwind(10)]
+#[kani::stub(crate::system::TimeSnapshot::root_dispersion, root_dispersion_uf)]
+#[kani::stub(crate::packet::v5::NtpServerCookie::new_random, server_cookie_stub)]
+fn c18_tb_v5_request_draft_ids_not_reflected() {
+    let b: [u8; 4] = kani::any();
+    let header = any_header_v5();
+    let mk = || NtpPacket {
+        header: NtpHeader::V5(header),
+        efdata: crate::packet::ExtensionFieldData {
+            untrusted: vec![
+                EF::DraftIdentification(Cow::Borrowed(DRAFT_VERSION)),
+                EF::DraftIdentification(Cow::Borrowed("reflect-me")),
+                EF::UniqueIdentifier(Cow::Borrowed(&b[..])),
+            ],
+            authenticated: vec![],
+            encrypted: vec![],
+        },
+        mac: None,
+    };
+    let uid = EF::UniqueIdentifier(Cow::Borrowed(&b[..]));
+    // own draft id, compared without memcmp (symbolic position instead of a 30-iteration loop)
+    let pos: usize = kani::any();
+    kani::assume(pos < DRAFT_VERSION.len());
+    let is_own_draft = |f: &EF<'_>| matches!(f, EF::DraftIdentification(s) if s.len() == DRAFT_VERSION.len() && s.as_bytes()[pos] == DRAFT_VERSION.as_bytes()[pos]);
+    let info = any_server_info(true);
+    let (recv, clock, _rd) = (any_ts(), VClock(any_ts()), rd_value());
+    let _ = pick_server_cookie();
+    let r = NtpPacket::timestamp_response(info, mk(), recv, &clock);
+    assert!(r.header == NtpHeader::V5(NtpHeaderV5::timestamp_response(&info, header, recv, &clock)) && r.mac.is_none());
+    assert!(r.efdata.authenticated.is_empty() && r.efdata.encrypted.is_empty());
+    assert!(r.efdata.untrusted.len() == 2 && r.efdata.untrusted[0] == uid && is_own_draft(&r.efdata.untrusted[1]), "time answer: uid + own draft id only");
+    kani::cover!(header.mode == NtpMode::Request, "reachable");
+}
+
 /// NTPv5 time answer: version 5; header per the header contract; fields == spec_v5_time_fields
 /// (all unauthenticated); nothing from `encrypted`; no MAC.
 #[kani::proof]
